@@ -16,6 +16,12 @@ WS_BASIC = [' ', '  ', '\t', '\n', ' \n ', '\r\n', '\f', '\v']
 WS_WIDE = WS_BASIC + [' ', ' ', '  ']
 
 
+# colon-less words: checks that are not kind:match (behave as '!'); some carry quote characters at one
+# edge (a quoted string needs the same quote at BOTH ends of the word) or are made of the constant signs
+BAD_WORDS = ['foobar', 'role', 'r1', 'nocolon', '%(x)s', "'a", "b'", '"q', 'x"', "'", '"', "'a'b", '!@', '@!', '@@', '!!']
+QUOTEY = ["'a", "b'", '"q', 'x"', "'", '"', "'a'b", "c'd"]
+
+
 def leaf_text(i):
     return 'role:r%d' % i
 
@@ -46,7 +52,7 @@ def core_text(tok, rng=None, leaf=leaf_text):
     if tok == FALSE_TOK:
         return '!'
     if tok == BAD_TOK:
-        return rng.choice(['foobar', 'role', 'r1', 'nocolon', '%(x)s']) if rng else 'foobar'
+        return rng.choice(BAD_WORDS) if rng else 'foobar'
     return leaf(tok - LEAF0)
 
 
@@ -226,6 +232,27 @@ def _split(rng, total, n):
         parts.append(max(1, c - prev))
         prev = c
     return parts
+
+
+def repeated_group_tokens(rng, nleaves=4):
+    """An expression in which one parenthesised group occurs several times, textually identical
+    (operators that build a tree incrementally must not let one occurrence change another)."""
+    g = random_tree(rng, rng.choice([2, 3, 3, 4]), nleaves, consts=False)
+    while g[0] not in ('and', 'or'):
+        g = random_tree(rng, rng.choice([2, 3, 3, 4]), nleaves, consts=False)
+    gt = [LP] + tree_tokens(g, None) + [RP]
+    marker = LEAF0 + nleaves + 1
+    for _ in range(50):
+        t = random_tree(rng, rng.choice([3, 4, 5, 6, 8]), nleaves + 1, consts=False)
+        toks = tree_tokens(t, None)
+        if toks.count(marker) >= 2:
+            break
+    else:
+        toks = [marker, OR, marker, AND, LEAF0 + 1]
+    out = []
+    for x in toks:
+        out.extend(gt if x == marker else [x])
+    return out
 
 
 PREC = {'or': 1, 'and': 2, 'not': 3}
